@@ -98,29 +98,29 @@ theorem sizeExp_facts (feats : Features) (fmt : Format) (o : WOpts) (hno : NumOp
 
 theorem mantNeed_le (f : Fmt) : mantNeed f ≤ 20 := by unfold mantNeed; split <;> omega
 
-/-- **the arithmetic heart of C09**: outside the excluded option regions the sign byte plus the slice need of the
-decimal back-end is at most `buffer_size_const`, for every digit list the digit generator can produce and every
-scientific exponent of a finite float. -/
-theorem need_le_bound (feats : Features) (f : Fmt) (fmt : Format) (o : WOpts) (ds : List Nat) (sci : Int) (S : Nat)
-    (h10 : fmt.mantissaRadix = 10) (her : (effFmt feats fmt).exponentRadix = 10) (hno : NumOpts o)
+theorem need_le_general (feats : Features) (f : Fmt) (fmt : Format) (o : WOpts) (ds : List Nat) (sci : Int) (S D E B : Nat)
+    (her : (effFmt feats fmt).exponentRadix = 10) (hmx : o.maxDigits ≠ some 0)
     (hds1 : 1 ≤ ds.length) (hdsn : ds.length ≤ mantNeed f) (hrange : -324 ≤ sci ∧ sci ≤ 308) (hS : S ≤ 1)
-    (hsafe : SafeOpts feats f fmt o) :
-    S + needDec fmt feats f ds sci o ≤ bufferSizeConst feats f fmt o := by
-  obtain ⟨hB, hB64⟩ := bufferSizeConst_ge feats f fmt o h10
-  obtain ⟨hE5, hEbr, hEno⟩ := sizeExp_facts feats fmt o hno
-  obtain ⟨hc1, hc2, hc3, hc4⟩ := truncateAndRound_length ds o hds1 hno.mx
+    (hB : 2 + E + D ≤ B) (hB64 : 64 ≤ B) (hE5 : 5 ≤ E)
+    (hEbr : ¬ (effFmt feats fmt).noExponentNotation = true →
+      (o.negBreak.getD (-5)).natAbs ≤ E ∧ (o.posBreak.getD 9).toNat ≤ E)
+    (hEno : (effFmt feats fmt).noExponentNotation = true → 324 ≤ E)
+    (hcD : (truncateAndRound ds o).1.length ≤ D) (hmnD : o.minDigits.getD 0 ≤ D)
+    (hsafe : if feats.compact = true then
+        2 ≤ D ∨ (if (effFmt feats fmt).noExponentNotation = true then 309 else (o.posBreak.getD 9).toNat) + 4 ≤ 64
+      else (mantNeed f ≤ D ∨
+          (if (effFmt feats fmt).noExponentNotation = true then 324 else (o.negBreak.getD (-5)).natAbs) + 2 + mantNeed f ≤ 64) ∧
+        (o.minDigits.getD 0 ≤ 50 ∨ 12 ≤ E) ∧
+        (3 ≤ D ∨ (if (effFmt feats fmt).noExponentNotation = true then 309 else (o.posBreak.getD 9).toNat) + 5 ≤ 64)) :
+    S + needDec fmt feats f ds sci o ≤ B := by
+  obtain ⟨hc1, hc2, hc3, hc4⟩ := truncateAndRound_length ds o hds1 hmx
   have hnd := mantNeed_le f
-  have hcD : (truncateAndRound ds o).1.length ≤ sizeDigits 10 o :=
-    sizeDigits_ge_count o _ (by omega) hc3
-  have hmnD := sizeDigits_ge_min o
-  have hexD : minExactDigits (truncateAndRound ds o).1.length o ≤ sizeDigits 10 o := by
+  have hexD : minExactDigits (truncateAndRound ds o).1.length o ≤ D := by
     have := (minExact_le (truncateAndRound ds o).1.length o).1; omega
-  unfold SafeOpts at hsafe
-  rw [h10] at hsafe
-  dsimp only at hsafe
-  generalize hB' : bufferSizeConst feats f fmt o = B at hB hB64 ⊢
-  generalize hE' : sizeExp feats fmt o = E at hB hE5 hEbr hEno hsafe
-  generalize hD' : sizeDigits 10 o = D at hB hcD hmnD hexD hsafe
+  have hK : ∀ c, c ≤ (truncateAndRound ds o).1.length → c ≤ D ∧ minExactDigits c o ≤ D ∧ c ≤ ds.length := by
+    intro c hc
+    have := (minExact_le c o).1
+    omega
   unfold needDec
   by_cases hcomp : feats.compact = true
   · rw [if_pos hcomp]
@@ -134,8 +134,10 @@ theorem need_le_bound (feats : Features) (f : Fmt) (fmt : Format) (o : WOpts) (d
     by_cases c2 : ¬ (effFmt feats fmt).noExponentNotation = true ∧ ((effFmt feats fmt).requiredExponentNotation = true ∨
         sci' < o.negBreak.getD (-5) ∨ sci' > o.posBreak.getD 9)
     · rw [if_pos c2, her]
+      obtain ⟨k1, k2⟩ := trimSci_length o _ hc1
+      obtain ⟨kD, kE, _⟩ := hK _ k2
       exact sciC_arith _ feats S _ _ _ E D B o hcomp hS (expSign_length_le _ _ _)
-        (numeral10_length_le _ (by omega)) hc1 hcD hexD hE5 hB hB64
+        (numeral10_length_le _ (by omega)) k1 kD kE hE5 hB hB64
     · rw [if_neg c2]
       by_cases c3 : sci' < 0
       · rw [if_pos c3]
@@ -150,16 +152,18 @@ theorem need_le_bound (feats : Features) (f : Fmt) (fmt : Format) (o : WOpts) (d
           omega
       · rw [if_neg c3]
         have hex1 := (minExact_le (sci'.toNat + 1 + 1) o).1
+        obtain ⟨k1, k2⟩ := trimPos_length o (sci'.toNat + 1) _ hc1 (by omega)
+        obtain ⟨kD, kE, _⟩ := hK _ k2
         by_cases hne : (effFmt feats fmt).noExponentNotation = true
         · rw [if_pos hne] at hsafe
-          exact posC_arith S _ _ _ _ E D B 309 o.trim hS (by omega) (by have := hEno hne; omega) hcD hexD (by omega) hB hB64
+          exact posC_arith S _ _ _ _ E D B 309 o.trim hS (by omega) (by have := hEno hne; omega) kD kE (by omega) hB hB64
             hsafe
         · rw [if_neg hne] at hsafe
           have : sci' ≤ o.posBreak.getD 9 := by
             by_cases hh : sci' > o.posBreak.getD 9
             · exact absurd ⟨hne, Or.inr (Or.inr hh)⟩ c2
             · omega
-          exact posC_arith S _ _ _ _ E D B (o.posBreak.getD 9).toNat o.trim hS (by omega) (hEbr hne).2 hcD hexD (by omega)
+          exact posC_arith S _ _ _ _ E D B (o.posBreak.getD 9).toNat o.trim hS (by omega) (hEbr hne).2 kD kE (by omega)
             hB hB64 hsafe
   · rw [if_neg hcomp]
     rw [if_neg hcomp] at hsafe
@@ -171,8 +175,10 @@ theorem need_le_bound (feats : Features) (f : Fmt) (fmt : Format) (o : WOpts) (d
     · rw [if_pos c2, her]
       have hcar : (if (truncateAndRound ds o).2 = true then (1 : Int) else 0) ≤ 1 ∧
           0 ≤ (if (truncateAndRound ds o).2 = true then (1 : Int) else 0) := by split <;> omega
+      obtain ⟨k1, _, _, _, k2⟩ := roundSci_length ds o hds1 hmx
+      obtain ⟨kD, kE, _⟩ := hK _ k2
       exact sciN_arith _ feats S _ _ _ _ _ E D B o hS (expSign_length_le _ _ _)
-        (numeral10_length_le _ (by omega)) hdsn hnd hc1 hcD (by omega) hexD (minExact_le _ o).1 hE5 hB hB64 hs2
+        (numeral10_length_le _ (by omega)) hdsn hnd k1 kD (by omega) kE (minExact_le _ o).1 hE5 hB hB64 hs2
     · rw [if_neg c2]
       by_cases c3 : sci < 0
       · rw [if_pos c3]
@@ -198,16 +204,40 @@ theorem need_le_bound (feats : Features) (f : Fmt) (fmt : Format) (o : WOpts) (d
         have hcarN : (if (truncateAndRound ds o).2 = true then 1 else 0) ≤ 1 := by split <;> omega
         generalize (if (truncateAndRound ds o).2 = true then 1 else 0) = cy at hcarN ⊢
         have hex1 := (minExact_le (sci.toNat + 1 + cy + 1) o).1
+        obtain ⟨k1, _, _, _, k2⟩ := roundPos_length ds sci o hds1 hmx
+        obtain ⟨kD, kE, kn⟩ := hK _ k2
         by_cases hne : (effFmt feats fmt).noExponentNotation = true
         · rw [if_pos hne] at hs3
-          exact posN_arith S _ _ _ _ _ _ E D B 309 o.trim hS (by omega) (by have := hEno hne; omega) hdsn hnd hcD hc2 hexD
+          exact posN_arith S _ _ _ _ _ _ E D B 309 o.trim hS (by omega) (by have := hEno hne; omega) hdsn hnd kD kn kE
             (by omega) hB hB64 hs3
         · rw [if_neg hne] at hs3
           have : sci ≤ o.posBreak.getD 9 := by
             by_cases hh : sci > o.posBreak.getD 9
             · exact absurd ⟨hne, Or.inr (Or.inr hh)⟩ c2
             · omega
-          exact posN_arith S _ _ _ _ _ _ E D B (o.posBreak.getD 9).toNat o.trim hS (by omega) (hEbr hne).2 hdsn hnd hcD hc2
-            hexD (by omega) hB hB64 hs3
+          exact posN_arith S _ _ _ _ _ _ E D B (o.posBreak.getD 9).toNat o.trim hS (by omega) (hEbr hne).2 hdsn hnd kD kn
+            kE (by omega) hB hB64 hs3
+
+
+
+/-- **the arithmetic heart of C09**: outside the excluded option regions the sign byte plus the slice need of the
+decimal back-end is at most the (pre-repair) `buffer_size_const`, for every digit list the digit generator can produce and
+every scientific exponent of a finite float. -/
+theorem need_le_bound (feats : Features) (f : Fmt) (fmt : Format) (o : WOpts) (ds : List Nat) (sci : Int) (S : Nat)
+    (h10 : fmt.mantissaRadix = 10) (her : (effFmt feats fmt).exponentRadix = 10) (hno : NumOpts o)
+    (hds1 : 1 ≤ ds.length) (hdsn : ds.length ≤ mantNeed f) (hrange : -324 ≤ sci ∧ sci ≤ 308) (hS : S ≤ 1)
+    (hsafe : SafeOpts feats f fmt o) :
+    S + needDec fmt feats f ds sci o ≤ bufferSizeConst feats f fmt o := by
+  obtain ⟨hB, hB64⟩ := bufferSizeConst_ge feats f fmt o h10
+  obtain ⟨hE5, hEbr, hEno⟩ := sizeExp_facts feats fmt o hno
+  obtain ⟨hc1, hc2, hc3, hc4⟩ := truncateAndRound_length ds o hds1 hno.mx
+  have hnd := mantNeed_le f
+  have hcD : (truncateAndRound ds o).1.length ≤ sizeDigits 10 o :=
+    sizeDigits_ge_count o _ (by omega) hc3
+  unfold SafeOpts at hsafe
+  rw [h10] at hsafe
+  dsimp only at hsafe
+  exact need_le_general feats f fmt o ds sci S _ _ _ her hno.mx hds1 hdsn hrange hS hB hB64 hE5 hEbr hEno hcD
+    (sizeDigits_ge_min o) hsafe
 
 end LexVerif.Proof.WriteFloatBound
